@@ -23,7 +23,9 @@ def step_binding(chk, w, steps, api_rejects):
     """(V') one event per iteration of the real loop, replayed against the loop model at the real word size.
     Everything here is Drift; the negative controls show that the trace specification is not vacuous."""
     sevs = core.read_ndjson(steps)
+    # (at most ~20 000 events per JVM: the thorough trace is a few hundred thousand events of 1000-bit numbers)
     r = core.validate_trace("gcd/GcdStepTrace.tla", "GcdStepTrace.cfg", steps, group_key="case", timeout=1700,
+                            shards=max(core.NCPU, (len(sevs) + 19999) // 20000),
                             weight=lambda e: 3 if "A" in e else 1, tag="steps")
     chk.add_tv(r)
     kinds = {}
@@ -249,7 +251,7 @@ def _inductive(chk):
            "runs": []}
     chk.add_mc(core.model_check("gcd/MC_GcdInd.tla", "MC_GcdInd_8.cfg", workers=4, timeout=1700))
     ind["runs"].append(core.ind_expect(core.tlapm("gcd/GcdProofs.tla", timeout=900), "ok", "GcdProofs"))
-    bad = core.ind_expect(core.tlapm("gcd/GcdProofsBad.tla", timeout=900), "failed", "GcdProofsBad")
+    bad = core.ind_expect(core.tlapm("gcd/GcdProofsBad.tla", timeout=900, retries=0), "failed", "GcdProofsBad")
     if bad["failed"] < 2:
         raise core.ToolError("GcdProofsBad: %d failed obligations, expected both false claims to fail" % bad["failed"])
     ind["runs"].append(bad)
